@@ -772,11 +772,18 @@ func (r *run) atomCaught(T *Node, signer neotest.SingleSigner, extra []*transact
 	r.out.Faults["caught_exception"]++
 	r.out.Faults[fmt.Sprintf("caught_exception/depth%d", ap.Depth)]++
 	ax, ay, ok := r.twinBlocks(T, x, y, extra, fmt.Sprintf("caught@depth%d effects=%d", ap.Depth, len(effects)), false)
-	if !ok || r.fail != nil {
+	if r.fail != nil {
 		return
 	}
-	if manyCaught && ay.VMState == vmstate.Halt && ax.VMState != vmstate.Halt {
-		r.violate(sim.Violatef("atom-caught-fault", "", "a script that catches %d exceptions thrown by a called function in a loop ends as %s (%s); the same script with one round halts", 250+ap.Pieces[0].X*7, ax.VMState, ax.FaultException))
+	if manyCaught && ax != nil && ay != nil {
+		r.out.Probes["loop_script_x_"+ax.VMState.String()]++
+		r.out.Probes["loop_script_twin_"+ay.VMState.String()]++
+		if ay.VMState == vmstate.Halt && ax.VMState != vmstate.Halt {
+			r.violate(sim.Violatef("atom-caught-fault", "", "a script that catches %d exceptions thrown by a called function in a loop ends as %s (%s); the same script with one round halts", 250+ap.Pieces[0].X*7, ax.VMState, ax.FaultException))
+			return
+		}
+	}
+	if !ok {
 		return
 	}
 	if ax.VMState != vmstate.Halt || ay.VMState != vmstate.Halt {
